@@ -173,6 +173,8 @@ func checkLockPairing(l *Loaded, fn *ssa.Function, handoff map[string]bool) (key
 					cur := s.st[k]
 					d := s.def[k]
 					switch {
+					case handoff[k]:
+						// conditional hand-off between a function and the goroutine it starts
 					case d > 0 && cur == lkFree:
 						report(k, "deferred Unlock runs at this return although the mutex was already released on this path (fatal: unlock of unlocked mutex)", x)
 					case d > 1:
